@@ -29,9 +29,9 @@ Definition flush_core (m : mode) (ones tail : N) (run : N * N) (samples : list (
   let* len1 := usub m (snd run) 1 in
   let* c1 := rl_code_len m gap in
   let* c2 := rl_code_len m len1 in
-  let* units_needed := uadd m c1 c2 in
-  let* have := uadd m (ilen data) units_needed in
-  let* room := umul m (lenN samples) rl_BLOCK_SIZE in
+  let units_needed := c1 + c2 in
+  let have := ilen data + units_needed in
+  let room := lenN samples * rl_BLOCK_SIZE in
   let* (samples', data') :=
     if room <? have then
       let* d := iv_resize data room 0 in
@@ -57,7 +57,7 @@ Lemma rlb_flush_eq m b :
        Ok (mkrlb (b_len b) (b_ones b) (fst x) (b_len b, 0) (fst (snd x)) (snd (snd x))).
 Proof.
   unfold rlb_flush, flush_core, rlb_blocks. destruct (snd (b_run b) <=? 0); [reflexivity|].
-  do 7 step_bind.
+  do 4 step_bind. cbv zeta.
   match goal with |- context [if ?c then _ else _] => destruct c end.
   - do 5 step_bind.
   - cbn [bind]. do 3 step_bind.
